@@ -341,7 +341,7 @@ func runC09(c *ctx, r *Report) error {
 	if !c.quick {
 		nV = 6000
 	}
-	return visitTie(c, r, nV, nil)
+	return visitTie(c, r, nV, true, nil)
 }
 
 func min(a, b int) int {
